@@ -494,6 +494,20 @@ func init() {
 			d := docT{"deep-wide-indent", []string{sb.String(), "- b\n"}, []int{71, 1}, ""}
 			add(d, "out-text", 1, w2, nil)
 		}
+		// two roots that are both deep (depth 9): anything kept per "deep node" in a shared object shows here
+		{
+			deep := func(r string) string {
+				s := "- " + r + "\n"
+				for l := 1; l <= 8; l++ {
+					s += strings.Repeat("  ", l) + "- " + fmt.Sprintf("%s%d", r, l) + "\n"
+				}
+				return s + "  - " + r + "tail\n"
+			}
+			d := docT{"two-deep", []string{deep("p"), deep("q")}, []int{10, 10}, ""}
+			for _, op := range []string{"out-text", "walk", "out-dry", "mkdir"} {
+				add(d, op, 1, w2, nil)
+			}
+		}
 		// roots whose rendering is larger than a typical I/O buffer (4096 bytes): blocks must stay intact
 		{
 			big := func(r string) string {
